@@ -392,8 +392,8 @@ Proof.
   - inversion Hm; subst. exact I.
   - destruct (nextf fs) as [f fs1]. destruct (s_load (wsr s) f k0). inversion Hm; subst. exact I.
   - destruct (nextf fs) as [f fs1]. destruct (s_add (wsr s) f k0 d). inversion Hm; subst. exact I.
-  - destruct Hs as (_ & -> & Hpre & _). destruct (nextf fs) as [f fs1]. destruct (s_upd (wsr s) f k d). inversion Hm; subst. first [exact Hpre | reflexivity].
-  - destruct Hs as (_ & -> & Hpre & _). destruct (nextf fs) as [f fs1]. destruct (s_upsert (wsr s) f k d). inversion Hm; subst.
+  - destruct Hs as (_ & -> & Hpre & _). destruct (nextf fs) as [f fs1]. destruct (s_upd (wsr s) f k d pre). inversion Hm; subst. first [exact Hpre | reflexivity].
+  - destruct Hs as (_ & -> & Hpre & _). destruct (nextf fs) as [f fs1]. destruct (s_upsert (wsr s) f k d pre). inversion Hm; subst.
     cbn [pre_good]. destruct pre as [x|]; [apply (Hpre x); reflexivity | exact I].
   - destruct (nextf fs) as [f fs1]. destruct (s_delete (wsr s) f k0). inversion Hm; subst. exact I.
 Qed.
